@@ -314,6 +314,20 @@ def run(ctx):
                                     if hb.crate == BG and hb.locals[0]["ty"] == "bool" and any(y.name in ("ge", "gt", "le", "lt") for y in hb.calls()) and \
                                             any(y.name in ("now", "elapsed") for y in hb.calls()):
                                         clock_helpers.append(x[1])
+                        # ... and so does a closure parameter that every caller binds to such a comparison (`drain_until(|| Instant::now() >= deadline)`)
+                        is_clock_cmp = lambda hb: hb is not None and hb.locals[0]["ty"] == "bool" and any(y.name in ("ge", "gt", "le", "lt") for y in hb.calls()) and \
+                            any(y.name in ("now", "elapsed") for y in hb.calls())
+                        for x in o:
+                            if x[0] != "call":
+                                continue
+                            t_ = d.term(x[1])
+                            cn_ = (t_.get("callee") or {}).get("name")
+                            if "callee_op" in t_ or (cn_ in ("call", "call_mut", "call_once") and "ops::function" in (t_.get("callee") or {}).get("def", "")):
+                                src_ = pr.operand(t_["callee_op"]) if "callee_op" in t_ else (pr.operand(t_["args"][0]) if t_.get("args") else set())
+                                qs = [y[1] for y in src_ if y[0] == "arg" and not y[2]]
+                                ups = F.callers_of(d.path, crates=[BG])
+                                if qs and ups and all(len(u.args) >= qs[0] and is_clock_cmp(closure_for_operand(F, u.body, u.args[qs[0] - 1])) for u in ups):
+                                    clock_helpers.append(x[1])
                         for cb_ in cmps + clock_helpers:
                             ao = set()
                             for a in d.term(cb_)["args"]:
